@@ -14,9 +14,9 @@ na=[{"property_id":p["id"],"reason":props.NOT_YET.get(p["id"],"check not built y
 m={"version":1,"setup_cmd":"./setup.sh",
  "hooks":{"guard":"STATHAM_VERIF","enable":"no hooks: contracts are sidecars under /verif/contracts, monitors are installed from outside; the guard is unused by /repo",
    "baseline_off_cmd":"cd /repo && /venv/bin/python -m pytest -ra -q -p no:cacheprovider --timeout=900 --continue-on-collection-errors",
-   "source_commits":props.FIX_COMMITS,"add_only":True},
+   "source_commits":[],"add_only":True},
  "engines":[{"name":"pyvc","path":"pyvc/","serves_properties":sorted(props.PROPS),"kind_free_text":"own VC generator: Python ast of the real source -> SMT-LIB (universal value sort) -> z3 5.1 / z3 4.8.12 / cvc5; sidecar contracts; runtime monitors of the same contracts for replay and the bounded tier"}],
  "checks":checks,"not_applicable":na,
- "notes":"fix: commits in /repo are unguarded repairs of genuine defects (known_findings.json lists them as fixed). Evidence level is `other` wherever part of the property is covered only by the bounded stand-in."}
+ "notes":"No hook or instrumentation commit was made in /repo (hooks.source_commits is empty). Every commit made in /repo is an unguarded `fix:` repair of a genuine defect ("+", ".join(props.FIX_COMMITS)+"); known_findings.json lists each with its property and failing input as `fixed`. Evidence level is `other` wherever part of the property is covered only by the bounded stand-in."}
 json.dump(m,open(os.path.join(ROOT,'MANIFEST.json'),'w'),indent=1)
 print(len(checks),'checks',len(na),'n/a')
